@@ -39,9 +39,8 @@ func From8Bit(v uint8) float32 {
 //
 // This implementation uses a fast look-up table without sacrificing accuracy.
 func From16Bit(v uint16) float32 {
-	if encoded16ToLinearLUT != nil {
-		return encoded16ToLinearLUT[v]
-	}
+	// The table is read only after passing through the Once: an unsynchronised
+	// nil check here would race with the goroutine publishing the table.
 	return from16BitAndInitLUT(v)
 }
 
@@ -68,9 +67,7 @@ func To8Bit(v float32) uint8 {
 // This implementation uses a fast look-up table and is approximate. For more
 // accuracy, see ConvertLinearTo16Bit.
 func To16Bit(v float32) uint16 {
-	if linearToEncoded16LUT != nil {
-		return linearToEncoded16LUT[linear.NormalisedTo16Bit(v)]
-	}
+	// See From16Bit: the table is read only after passing through the Once.
 	return to16BitAndInitLUT(v)
 }
 
